@@ -334,7 +334,7 @@ impl Counters {
     }
     pub fn fail(&mut self, prop: &str, kind: &str, font: &str, req: &Req, detail: &str) {
         self.fails += 1;
-        if self.fails <= 12 || std::env::var("RBV_ALL_FAILS").is_ok() {
+        if self.fails <= 12 || (self.fails <= 20000 && std::env::var("RBV_ALL_FAILS").is_ok()) {
             println!("fail {} {} font={} req=[{}] {}", prop, kind, font, fmt_req(req), detail);
         }
     }
@@ -1014,6 +1014,34 @@ fn flag_gen_pass(which: &str, seed: u64, n: u64, only: u64, tr: &mut Option<std:
             if let Some(d) = &dump {
                 let _ = std::fs::create_dir_all(d);
                 let _ = std::fs::write(&path, &fi.data);
+            }
+        }
+    }
+    // C03 only: syllabic scripts whose shaper inserts a dotted circle between GSUB stages (see flaggen.rs)
+    if prop == "C03" && only == u64::MAX {
+        for k in 0..(nfonts / 40 + 16) {
+            let (spec, _) = crate::flaggen::gen_font_dotted(seed, k);
+            let data = crate::fontgen::build(&spec);
+            let name = format!("flaggen-{}-dotted{}.ttf", seed, k);
+            let path = match &dump {
+                Some(d) => format!("{}/{}", d, name),
+                None => format!("generated:{}", name),
+            };
+            let chars: Vec<u32> = spec.cmap.iter().map(|x| x.0).collect();
+            let fi = FontInfo { path: path.clone(), data, chars, has_layout: true, has_morx: false, has_kern: false, scripts: vec![] };
+            let mut r = Rng::new(seed ^ (k.wrapping_mul(0x9E37_79B9)) ^ 0xD0C1);
+            let before = cnt.fails;
+            for j in 0..TEXTS {
+                let req = crate::flaggen::gen_req_dotted(&mut r, k);
+                trace(tr, &format!("dotted {} {} [{}]", k, j, fmt_req(&req)));
+                check_c03(&fi, &req, &mut cnt);
+            }
+            cnt.bump("fonts_dotted_circle");
+            if cnt.fails > before {
+                if let Some(d) = &dump {
+                    let _ = std::fs::create_dir_all(d);
+                    let _ = std::fs::write(&path, &fi.data);
+                }
             }
         }
     }
